@@ -62,6 +62,13 @@ FontSame(f, g) == f.h = g.h /\ f.w = g.w /\ f.n = g.n /\ f.crc = g.crc /\ (Len(f
 \* the glyph tables of the font pages the picture uses (page 0 always); an embedded but unused second font is not part of the picture
 UsedPages(a) == {0} \cup {Pg(a.ch[i]) : i \in 1..Len(a.ch)}
 FontOk(a, b) == \A k \in UsedPages(a) \cap {0, 1} : k + 1 <= Len(a.fonts) => (k + 1 <= Len(b.fonts) /\ FontSame(a.fonts[k + 1], b.fonts[k + 1]))
+\* Re-save half ("gives the same picture as the first load"): a writer may drop an embedded font that no cell uses and renumber
+\* the font pages; what has to stay is the glyph every cell shows - identified by the glyph table it comes from and the code in it
+GlyphOf(p, i) == LET k == Pg(p.ch[i]) IN << IF k + 1 <= Len(p.fonts) THEN <<p.fonts[k + 1].crc, p.fonts[k + 1].h>> ELSE <<>>, Chr(p.ch[i]) >>
+GlyphBad(a, b, n) == {i \in 1..n : GlyphOf(a, i) # GlyphOf(b, i)}
+CharOkH(a, b, n, half) == IF half = "Resave" THEN (CharOk(a, b, n) \/ GlyphBad(a, b, n) = {}) ELSE CharOk(a, b, n)
+CharBadH(a, b, n, half) == IF half = "Resave" THEN GlyphBad(a, b, n) ELSE CharBad(a, b, n)
+FontOkH(a, b, n, half) == IF half = "Resave" THEN (FontOk(a, b) \/ GlyphBad(a, b, n) = {}) ELSE FontOk(a, b)
 PalOk(a, b) == Len(a.pal) = Len(b.pal) /\ \A k \in 1..Len(a.pal) : \A j \in 1..3 : a.pal[k][j] \div 4 = b.pal[k][j] \div 4
 
 RGB(t) == t[1] * 65536 + t[2] * 256 + t[3]
@@ -96,13 +103,13 @@ TndColourChecks(a, b, n, e, half, blank, solid) ==
 \* PictureEq(a, b): a = reference picture (source / first load), b = reloaded; n = cells on the common rows
 PictureChecks(a, b, n, e, half, six, blank, solid) ==
   /\ Check(SizeOk(a, b), "C05", "SizeEq", l, Basic(a, b, SizeKind(a, b, n, e.fmt), half, e))
-  /\ Check(CharOk(a, b, n), "C05", "CharEq", l, CellInfo(a, b, CharBad(a, b, n), CharKind(a, b, CharBad(a, b, n)), half, e))
+  /\ Check(CharOkH(a, b, n, half), "C05", "CharEq", l, CellInfo(a, b, CharBadH(a, b, n, half), CharKind(a, b, CharBadH(a, b, n, half)), half, e))
   /\ (IF ColourOk(a, b, n, six, blank, solid) THEN TRUE
       ELSE IF e.fmt = "tnd" THEN TndColourChecks(a, b, n, e, half, blank, solid)
       ELSE Viol("C05", "ColourEq", l, CellInfo(a, b, BgBad(a, b, n, six, solid) \cup FgBad(a, b, n, six, blank), "cells", half, e)))
   /\ Check(BlinkOk(a, b, n, blank), "C05", "BlinkEq", l, CellInfo(a, b, BlinkBad(a, b, n, blank), "blink", half, e))
   /\ Check(ModeOk(a, b), "C05", "ModeEq", l, Basic(a, b, IF a.ice = 1 THEN "ice->blink" ELSE "blink->ice", half, e))
-  /\ (IF EmbedsFont(e.fmt) THEN Check(FontOk(a, b), "C05", "FontEq", l, Basic(a, b, "fonts", half, e)) ELSE TRUE)
+  /\ (IF EmbedsFont(e.fmt) THEN Check(FontOkH(a, b, n, half), "C05", "FontEq", l, Basic(a, b, "fonts", half, e)) ELSE TRUE)
   /\ (IF SixBit(e.fmt) THEN Check(PalOk(a, b), "C05", "PaletteEq", l, Basic(a, b, "palette", half, e)) ELSE TRUE)
 AllEq(a, b, n, e, six, blank, solid) ==
   SizeOk(a, b) /\ CharOk(a, b, n) /\ ColourOk(a, b, n, six, blank, solid) /\ BlinkOk(a, b, n, blank) /\ ModeOk(a, b) /\ FontOk(a, b) /\ PalOk(a, b)
